@@ -273,7 +273,11 @@ static int run() {
 			memset(sl.storage, fill, sizeof sl.storage);
 			sl.ctx.probe = &sl.probe; sl.seq = 0; sl.lastSnap.clear();
 			sl.probe.instance = sl.storage;
+			#ifdef HFSM2_ENABLE_UTILITY_THEORY
 			apiCall(sl, cur, labelOf(t), logOn, [&] { static vf::ScriptedRng rng; sl.fsm = new (sl.storage) FSM::Instance{&sl.ctx, rng}; });
+#else
+			apiCall(sl, cur, labelOf(t), logOn, [&] { sl.fsm = new (sl.storage) FSM::Instance{&sl.ctx}; });
+#endif
 		}
 		else if (c == "copy") {
 			// copy <src slot> : copy-construct the instance of <src slot> into the current (empty) slot
